@@ -156,12 +156,11 @@ CLAIMED = {
         "configuration's explicit choices win and keeps everything else; fill_with_curated (curated table stubbed, all 16 tables) gives "
         "unset rules their curated default and keeps explicit user choices; two configurations that enable different rules never feed "
         "the same bytes to the hasher. The per-rule gate of the real <LintGroup as Linter>::lint for pattern rules (incl. through the "
-        "clause cache): with two stub rules under all four configurations, and with a rule toggled between two calls, the lints are "
-        "exactly those of the enabled rules. harper-wasm: after import_words rebuilds the lint group (synchronize_lint_dict + "
+        "clause cache): with two stub rules under all four configurations, with a rule toggled between two calls, and with 66 stub rules "
+        "of which the 1st and the 65th are switched independently in two calls, the lints are exactly those of the enabled rules. harper-wasm: after import_words rebuilds the lint group (synchronize_lint_dict + "
         "merge_from), the explicit rule choices are unchanged (the `words` obligation of the C16 kernel).",
         "Not covered: the gate for whole-document rules (dyn Linter path), 'the lints under a configuration are the combination of what "
-        "each enabled rule produces' for the ~290 real rules (a cache key that aliases only beyond 64 pattern rules - seed R3-C11-1 - "
-        "is outside the two-rule bound), the JSON round trip (serde), harper-ls Config::from_lsp_config. BTreeMap<String, Option<bool>> "
+        "each enabled rule produces' for the ~290 real rules (beyond the scenario with 66 stub rules of which two are switchable), the JSON round trip (serde), harper-ls Config::from_lsp_config. BTreeMap<String, Option<bool>> "
         "is modelled as an ordered association list; the hasher is a recorder.",
         "DESIGN.md section 4, C11"),
     "C12": (
